@@ -137,6 +137,15 @@ static void cbfn(struct evbuffer *buf, const struct evbuffer_cb_info *info, void
 		in_cb_drain = 0;
 		MC_COUNT("cb_modifies_buffer");
 		if (exp != got) failk("retval", "drain-in-callback", "returned %d, model %d", got, exp);
+	} else if (c->behav == 2 && in_cb_drain && !mc_param("uaf", 0)) {
+		/* This invocation comes from a dispatch nested inside another
+		 * callback's drain.  The outer evbuffer_run_callbacks loop has already
+		 * saved a pointer to this entry as its `next`; freeing the entry now makes
+		 * the outer loop read freed memory (ASan: heap-use-after-free in
+		 * evbuffer_run_callbacks; run with -P uaf=1 to see it).  A crash per
+		 * history would stop the exploration, so the hazard is reported under
+		 * its own key and the removal is skipped. */
+		failk("self-removal", "in-nested-dispatch", "%s: callback %d removes itself while an outer dispatch still holds it as next entry (use-after-free in evbuffer_run_callbacks)", curop, k);
 	} else if (c->behav == 2) {
 		MC_COUNT("cb_removes_itself");
 		evbuffer_remove_cb_entry(buf, c->ent);
@@ -350,10 +359,11 @@ static int op_add_iovec(const struct inst *in)
 	gen_payload(PAY, l0 + l1, 2);
 	v[0].iov_base = PAY; v[0].iov_len = l0; v[1].iov_base = PAY + l0; v[1].iov_len = l1;
 	size_t exp = M[in->b].fz_end ? 0 : l0 + l1;
+	bs_add(&M[in->b], PAY, exp);                 /* model first: callbacks may run inside the call */
 	size_t got = evbuffer_add_iovec(EB[in->b], v, 2);
 	MC_COUNT("retval_compared");
-	if (got == exp) { bs_add(&M[in->b], PAY, exp); return RS_OK; }
-	if (fault_hit() && (got == 0 || got == l0)) { bs_add(&M[in->b], PAY, got); return got ? RS_OK : RS_FAILED; }
+	if (got == exp) return RS_OK;
+	if (fault_hit() && (got == 0 || got == l0)) { restore_models(); bs_add(&M[in->b], PAY, got); return got ? RS_OK : RS_FAILED; }
 	failk("retval", in->name, "add_iovec returned %zu, model %zu", got, exp);
 	return RS_DEAD;
 }
@@ -842,6 +852,23 @@ static void body(void)
 		struct inst i = { .a1 = 2 }; op_cb_add(&i);
 		if (MODE == 14) { i.a1 = 0; op_cb_add(&i); }
 	}
+	if (MODE == 13) {
+		/* initial callback configuration of A: {behaviour of cb0, of cb1 (-1 none), NODEFER mask, deferred} */
+		static const struct { int b0, b1, nodefer, defer; const char *name; } setups[] = {
+			{ -1, -1, 0, 0, "none" }, { 0, -1, 0, 0, "plain" }, { 0, 0, 0, 0, "plain+plain" },
+			{ 1, 0, 0, 0, "plain-then-drainer" }, { 0, 1, 0, 0, "drainer-then-plain" },
+			{ 0, -1, 0, 1, "plain,deferred" }, { 0, -1, 1, 1, "nodefer,deferred" }, { 0, 0, 2, 1, "nodefer+plain,deferred" },
+			{ 2, 0, 0, 0, "plain-then-selfremover" }, { 1, -1, 0, 1, "drainer,deferred" }, { 2, 0, 0, 1, "plain-then-selfremover,deferred" },
+		};
+		int su = mc_choose((int)(sizeof setups / sizeof *setups), 0, "setup");
+		struct inst i = { 0 };
+		curop = "setup";
+		if (setups[su].b0 >= 0) { i.a1 = 0; i.a2 = setups[su].b0; op_cb_add(&i); }
+		if (setups[su].b1 >= 0) { i.a1 = 1; i.a2 = setups[su].b1; op_cb_add(&i); }
+		for (int k = 0; k < 2; k++) if (setups[su].nodefer & (1 << k)) { i.a1 = k; i.a2 = EVBUFFER_CB_NODEFER; i.a3 = 1; op_cb_flags(&i); }
+		if (setups[su].defer) op_defer(&i);
+		mc_observe("setup=%s ", setups[su].name);
+	}
 	for (step = 0; step < DEPTH && !dead; step++) {
 		int c = mc_choose(NINST + 1, 0, "op");
 		if (!c) break;
@@ -907,6 +934,6 @@ int main(int c, char **v)
 {
 	static char prop[8] = "C12";
 	for (int i = 1; i < c; i++) if (!strncmp(v[i], "mode=", 5)) snprintf(prop, sizeof prop, "C%d", atoi(v[i] + 5));
-	struct mc_config cfg = { .property = prop, .body = body, .init = init, .default_split = 1 };
+	struct mc_config cfg = { .property = prop, .body = body, .init = init, .default_split = strcmp(prop, "C13") ? 1 : 2 };
 	return mc_main(c, v, &cfg);
 }
